@@ -874,6 +874,14 @@ def find_unit_numbers(ob):
         if bad:
             return {"reproduced": True, "target": "sharepoint2text read_epub", "inputs": {"fixture": f.replace(REPO + "/", ""), "variant": label},
                     "expected": "unit numbers are positive integers", "observed": f"{bad[0]['where']}: {bad[0]['detail']}"}
+    if "ppt_extractor" in ob or ("data_types" in ob and "::Ppt" in ob):
+        try:
+            from replay import c04_ppt
+            r = c04_ppt.find(ob)
+        except Exception as e:  # noqa
+            r = {"reproduced": False, "note": f"PPT stream replay failed: {type(e).__name__}"}
+        if r["reproduced"]:
+            return r
     s = sweep(kinds=("unit-number",))
     if s:
         return {"reproduced": True, "target": ob, "inputs": {"file": s[0]["file"]}, "expected": "unit numbers are positive integers", "observed": f"{s[0]['where']}: {s[0]['detail']}"}
